@@ -358,7 +358,9 @@ def gen_program(rng, focus):
                 # a box hugging the start point: many proposals fall outside and are answered without calling the cost
                 ops.append(['ranges', [math.floor(v) - rng.choice([0.0, 1.0]) for v in cfg['x0']], [math.ceil(v) + rng.choice([0.0, 1.0]) for v in cfg['x0']]])
             elif rng.random() < 0.8:
-                ops.append(['ranges', [float(-rng.randint(6, 9)) for _ in range(dim)], [float(rng.randint(6, 9)) for _ in range(dim)]])
+                # (one edge for all coordinates: a 'tie' constraint keeps such a box also when the run starts far outside it and is clipped onto its faces)
+                lo_, hi_ = float(-rng.randint(6, 9)), float(rng.randint(6, 9))
+                ops.append(['ranges', [lo_] * dim, [hi_] * dim])
             else: ops.append(['ranges', False, False])
         elif r < 0.81: ops.append(['termination', gen_term(rng, cfg['solver'])])
         elif r < 0.86: ops.append(['objective', rng.choice(['same', 'new'])])
